@@ -114,6 +114,9 @@ def norm(b):
     return lines
 
 
+MARK = [0]
+
+
 def build(st, bi, plan_, encodings="quoted", names=NAME_SETS[0]):
     old, new, other, same = st
     O, N, X = (n.encode("utf-8") for n in names)
@@ -137,6 +140,8 @@ def build(st, bi, plan_, encodings="quoted", names=NAME_SETS[0]):
     srv = ms.Server(users={b"user": b"pw"}, version=False, scripts=scripts, active=active,
                     encodings=encodings, faults=faults)
     srv.how_script = lambda: "literal"
+    MARK[0] += 1
+    srv.active_marker = (b"ACTIVE", b"active", b"Active", b"ACTIVE")[MARK[0] % 4]
     return srv
 
 
@@ -155,7 +160,7 @@ def run_case(case, res: Result, rng=None, probe=False):
                 return
             for name in srv.scripts:
                 how = listing if listing == "literal" or ms.can_quote(name) else "literal"
-                srv.emit(ms.enc_string(name, how) + (b" ACTIVE" if name == srv.active else b"")
+                srv.emit(ms.enc_string(name, how) + (b" " + srv.active_marker if name == srv.active else b"")
                          + ms.CRLF)
             srv.final("OK", None, b"Listscripts completed.")
         srv.do_listscripts = do_list2
@@ -170,7 +175,7 @@ def run_case(case, res: Result, rng=None, probe=False):
             if not srv._want(args):
                 return
             for name in srv.scripts:
-                srv.emit(ms.quoted(name) + (b" ACTIVE" if name == srv.active else b"")
+                srv.emit(ms.quoted(name) + (b" " + srv.active_marker if name == srv.active else b"")
                          + ms.CRLF)
             srv.final("OK", None, b"Listscripts completed.")
         srv.do_listscripts = do_list
